@@ -130,11 +130,13 @@ def main():
                                "found_input": False,
                                "replay": {"kind": "broken-obligation", "broken_theorems": broken, "broken_correspondence": corr_broken}})
 
-    # 4b. standing search: properties with recorded (known, unrepaired) findings keep their oracle running so that the
-    #     findings stay visible as KNOWN-FINDING lines and any NEW violation of the same property is still reported
-    if not (broken or corr_broken) and hasattr(mod, "standing_search"):
+    # 4b. standing search: the property's monitor (the statement evaluated on the real code, no model) also runs when
+    #     nothing broke.  Model and code can agree on behaviour that no theorem constrains; the monitor is what sees a
+    #     violation there.  It also keeps recorded (known, unrepaired) findings visible as KNOWN-FINDING lines.
+    if not (broken or corr_broken):
         try:
-            for v in mod.standing_search(ctx):
+            standing = getattr(mod, "standing_search", None) or (lambda c: mod.search(c, [], []))
+            for v in standing(ctx):
                 v.setdefault("found_input", True)
                 violations.append(v)
             search_info = {"candidates": getattr(mod, "LAST_SEARCH_CANDIDATES", None), "hits": len(violations), "standing": True}
